@@ -376,6 +376,10 @@ func elecRun(w *World) {
 					if r.Code == codes.OK && (o.Kind == "set" || o.Kind == "change" || o.Kind == "clear") {
 						e.active = true
 					}
+					if r.Code == codes.NotFound && o.Kind == "delete" && o.AllowMiss {
+						// whoever else deletes the same mode at the same moment: with allow-missing an absent mode is a success
+						w.Violate("delete-absent", fmt.Sprintf("%s, concurrently with other callers, reported NotFound although allow-missing was set", o), map[string]any{"phase": "concurrent"})
+					}
 					if r.Code == codes.OK && o.Kind == "clear" && r.Mode != nil && !r.Mode.Normal {
 						// whatever the other callers were doing: the mode that a clear selects (and returns) is the normal one
 						// at that instant - a mode that is not marked normal cannot come out of any order of the calls
